@@ -186,6 +186,7 @@ func genCase(r *core.Rand) *kase {
 		}
 	}
 	k.tls = r.Chance(1, 2)
+	k.tlsConn = k.tls && r.Chance(1, 4)
 	k.host = r.Pick(hostPool)
 	// ---- request header fields, wire order
 	names := append([]string{}, k.effectiveCIH()...)
@@ -263,7 +264,7 @@ func (p *prop) Generate(rng *core.Rand, tier string, emit func(string)) {
 	for _, l := range []string{
 		"", "req", "nope 1 2 3", "req nil nil 0 . 000 - 0 - . . 0 0",
 		"req nil nil 0 . 000 - 0 - . .", "req nil nil 3 . 000 - 0 - . . 0 0", "req nil nil 0 . 00 - 0 - . . 0 0",
-		"req nil nil 0 . 000 zz 0 - . . 0 0", "req nil nil 0 . 000 - 2 - . . 0 0", "req 10.0.0.0/8 nil 0 nil 000 - 0 - . . 0 0",
+		"req nil nil 0 . 000 zz 0 - . . 0 0", "req nil nil 0 . 000 - 3 - . . 0 0", "req 10.0.0.0/8 nil 0 nil 000 - 0 - . . 0 0",
 		"req x,y nil 0 . 000 - 0 - . . 0 0", "req nil nil 0 . 000 - 0 - 41 . 0 0", "req nil nil 0 . 000 - 0 - 41:42:43 . 0 0",
 		"req nil nil 0 . 000 - 0 - . . 3 0", "req nil nil 0 . 000 - 0 - . . 1 3", "req nil nil 0 . 000 - 0 - . . 2 2",
 	} {
